@@ -1,0 +1,53 @@
+package trie
+
+// strCmpUpto compares a string with a bitstr prefix b, at most up to the length
+// of b.  It returns the same result as bitstr.CmpUpto([]byte(a), b) but neither
+// copies a nor reinterprets the string header as a slice header: a string
+// header has no capacity word, thus a slice made that way has a garbage
+// capacity and slicing it may panic.
+func strCmpUpto(a string, b []byte) int {
+	la, lb := len(a), len(b)
+	if lb == 1 {
+		return 0
+	}
+
+	if la < lb-1 {
+		return cmpStrBytes(a, b[:lb-1])
+	}
+
+	// la >= lb-1: compare all but the last(maybe partial) byte of b.
+	la = lb - 1
+
+	rst := cmpStrBytes(a[:lb-2], b[:lb-2])
+	if rst != 0 {
+		return rst
+	}
+
+	// The trailing byte of b is a mask of the effective bits in the last byte.
+	bytea := a[la-1] & b[lb-1]
+	byteb := b[la-1]
+
+	if bytea > byteb {
+		return 1
+	} else if bytea < byteb {
+		return -1
+	}
+
+	return 0
+}
+
+// cmpStrBytes compares a string with a []byte that is not shorter than it.
+func cmpStrBytes(a string, b []byte) int {
+	for i := 0; i < len(a); i++ {
+		if a[i] < b[i] {
+			return -1
+		} else if a[i] > b[i] {
+			return 1
+		}
+	}
+
+	if len(a) < len(b) {
+		return -1
+	}
+	return 0
+}
